@@ -76,6 +76,205 @@ func moofString(t *idTable, m *mp4.MoofBox) string {
 	return strings.Join(ss, "+")
 }
 
+
+// ---------------------------------------------------------------- init segment cases
+
+func tencString(t *mp4.TencBox) string {
+	if t == nil {
+		return "-"
+	}
+	return fmt.Sprintf("%d/%d/%d/%d/%d/%s", t.Version, t.DefaultCryptByteBlock, t.DefaultSkipByteBlock,
+		t.DefaultIsProtected, t.DefaultPerSampleIVSize, hx.Hex(t.DefaultConstantIV))
+}
+
+func seChildrenString(t *idTable, ch []mp4.Box) string {
+	if len(ch) == 0 {
+		return "-"
+	}
+	ss := make([]string, len(ch))
+	for i, c := range ch {
+		if sinf, ok := c.(*mp4.SinfBox); ok {
+			frma, schm, tenc := "????", "-", "-"
+			if sinf.Frma != nil {
+				frma = sinf.Frma.DataFormat
+			}
+			if sinf.Schm != nil {
+				schm = sinf.Schm.SchemeType
+			}
+			if sinf.Schi != nil {
+				tenc = tencString(sinf.Schi.Tenc)
+			}
+			ss[i] = "s:" + frma + ":" + schm + ":" + tenc
+		} else {
+			ss[i] = "o" + strconv.Itoa(t.id(c))
+		}
+	}
+	return strings.Join(ss, ",")
+}
+
+func entryString(t *idTable, b mp4.Box) string {
+	switch x := b.(type) {
+	case *mp4.VisualSampleEntryBox:
+		return "v/" + x.Type() + "/" + seChildrenString(t, x.Children)
+	case *mp4.AudioSampleEntryBox:
+		return "a/" + x.Type() + "/" + seChildrenString(t, x.Children)
+	}
+	return "o/" + b.Type() + "/-"
+}
+
+func moovString(t *idTable, m *mp4.MoovBox) string {
+	ss := make([]string, len(m.Children))
+	for i, c := range m.Children {
+		switch x := c.(type) {
+		case *mp4.TrakBox:
+			var es []string
+			for _, e := range x.Mdia.Minf.Stbl.Stsd.Children {
+				es = append(es, entryString(t, e))
+			}
+			ss[i] = "T[" + strings.Join(es, ";") + "]"
+		case *mp4.PsshBox:
+			ss[i] = "p" + strconv.Itoa(t.id(c))
+		default:
+			ss[i] = "o" + strconv.Itoa(t.id(c))
+		}
+	}
+	return strings.Join(ss, "+")
+}
+
+func (e *env) initCases(r *hx.Rng, n int, next func() string) {
+	for i := 0; i < n; i++ {
+		codec := byte(r.Pick('a', 'h', 'u'))
+		f, err := mp4.DecodeFile(bytes.NewReader(e.initFor(codec)))
+		must(err)
+		moov := f.Init.Moov
+		stsd := moov.Trak.Mdia.Minf.Stbl.Stsd
+		kind := "v"
+		var ty string
+		switch se := stsd.Children[0].(type) {
+		case *mp4.VisualSampleEntryBox:
+			if codec == 'a' {
+				ty = []string{"avc1", "avc1", "avc3", "vp09", "encv"}[r.Intn(5)]
+			} else {
+				ty = []string{"hvc1", "hvc1", "hev1", "av01"}[r.Intn(4)]
+			}
+			se.SetType(ty)
+			if r.Intn(3) == 0 {
+				se.AddChild(&mp4.BtrtBox{})
+			}
+			if r.Intn(12) == 0 { // a sinf of its own
+				sinf := &mp4.SinfBox{}
+				sinf.AddChild(&mp4.FrmaBox{DataFormat: "abcd"})
+				if r.Bool() {
+					sinf.AddChild(&mp4.SchmBox{SchemeType: "cenc", SchemeVersion: 65536})
+				}
+				se.AddChild(sinf)
+			}
+			if r.Intn(3) == 0 {
+				se.AddChild(&mp4.PaspBox{HSpacing: 1, VSpacing: 1})
+			}
+		case *mp4.AudioSampleEntryBox:
+			kind = "a"
+			ty = []string{"mp4a", "mp4a", "ac-3", "enca"}[r.Intn(4)]
+			se.SetType(ty)
+			if r.Intn(3) == 0 {
+				se.AddChild(&mp4.BtrtBox{})
+			}
+		}
+		if r.Intn(15) == 0 {
+			kind, ty = "o", "abcd"
+			stsd.Children[0] = mp4.CreateUnknownBox("abcd", 8+4, []byte{0, 0, 0, 0})
+		}
+		if r.Intn(4) == 0 {
+			moov.AddChild(mp4.NewFreeBox([]byte{1, 2, 3}))
+		}
+		if r.Intn(10) == 0 {
+			ps, err := mp4.NewPsshBox("edef8ba979d64acea3c827dcd51d21ed", nil, []byte{9})
+			must(err)
+			moov.AddChild(ps)
+		}
+		if r.Intn(12) == 0 {
+			g, err := mp4.DecodeFile(bytes.NewReader(e.aacInit))
+			must(err)
+			moov.AddChild(g.Init.Moov.Trak)
+		}
+		scheme := []string{"cenc", "cbcs", "cenc", "cbcs", "cens"}[r.Intn(5)]
+		iv := genIV(r, r.Pick(8, 16))
+		npssh := r.Pick(0, 0, 1, 2)
+		var psshs []*mp4.PsshBox
+		t := &idTable{m: map[mp4.Box]int{}}
+		// describe the input; the main trak is the first one
+		var mdesc []string
+		seenTrak := false
+		for _, c := range moov.Children {
+			switch c.(type) {
+			case *mp4.TrakBox:
+				if !seenTrak {
+					mdesc = append(mdesc, "T")
+					seenTrak = true
+				} else {
+					mdesc = append(mdesc, "U")
+				}
+			case *mp4.PsshBox:
+				mdesc = append(mdesc, "p"+strconv.Itoa(t.id(c)))
+			default:
+				mdesc = append(mdesc, "o"+strconv.Itoa(t.id(c)))
+			}
+		}
+		sech := "-"
+		switch se := stsd.Children[0].(type) {
+		case *mp4.VisualSampleEntryBox:
+			sech = seChildrenString(t, se.Children)
+		case *mp4.AudioSampleEntryBox:
+			sech = seChildrenString(t, se.Children)
+		}
+		for k := 0; k < npssh; k++ {
+			ps, err := mp4.NewPsshBox("edef8ba979d64acea3c827dcd51d21ed", nil, []byte{byte(k)})
+			must(err)
+			t.m[ps] = 1000 + k
+			psshs = append(psshs, ps)
+		}
+		kid, _ := mp4.NewUUIDFromString(kidHex)
+		var ipd *mp4.InitProtectData
+		obs := ""
+		p := hx.Try(func() { ipd, err = mp4.InitProtect(f.Init, r.Bytes(16, nil), iv, scheme, kid, psshs) })
+		switch {
+		case p != "":
+			obs = "panic"
+		case err != nil:
+			obs = "err"
+		default:
+			obs = "ok|" + moovString(t, moov) + "|" + tencString(ipd.Tenc)
+			var di mp4.DecryptInfo
+			p2 := hx.Try(func() { di, err = mp4.DecryptInit(f.Init) })
+			switch {
+			case p2 != "":
+				obs += "#panic"
+			case err != nil:
+				obs += "#err"
+			default:
+				var infos []string
+				for _, ti := range di.TrackInfos {
+					if ti.Sinf == nil {
+						infos = append(infos, "clear")
+					} else {
+						tn := "-"
+						if ti.Sinf.Schi != nil {
+							tn = tencString(ti.Sinf.Schi.Tenc)
+						}
+						infos = append(infos, ti.Sinf.Schm.SchemeType+"="+tn)
+					}
+				}
+				is := "-"
+				if len(infos) > 0 {
+					is = strings.Join(infos, ",")
+				}
+				obs += "#ok|" + moovString(t, moov) + "|" + is
+			}
+		}
+		emit("P", next(), kind, ty, sech, strings.Join(mdesc, "+"), scheme, hx.Hex(iv), strconv.Itoa(npssh), "1", obs)
+	}
+}
+
 // ---------------------------------------------------------------- corr
 
 func ssString(l [][]mp4.SubSamplePattern) string {
@@ -100,6 +299,9 @@ func corr(e *env, seed uint64, n int) {
 	r := hx.NewRng(seed ^ 0xc06)
 	id := 0
 	next := func() string { id++; return strconv.Itoa(id) }
+	// --- P: InitProtect + DecryptInit on init segments (AVC/HEVC/AAC entries, retyped entries, extra children,
+	//        own sinf, pre-existing pssh, second trak, bad scheme)
+	e.initCases(r, n/2, next)
 	// --- D: decryptSamplesInPlace on senc contents of every shape (8/16-byte IVs, constant IV, no IVs,
 	//        with/without sub-sample lists, IV count != sample count, short sub-sample lists)
 	for i := 0; i < n; i++ {
